@@ -54,7 +54,7 @@ func run(r *core.Run) {
 	r.Assume("map keys are distinct strings; in maps with more than one pair the keys use their shortest encoding")
 	r.Assume("yaml/toml/xml roots are containers (fq documents these decoders as object/array roots only); toml has no null and a non-empty root table; bson roots are documents")
 	r.Assume("truncation of text formats is only judged for encodings whose every proper prefix is syntactically incomplete (json non-number roots without trailing whitespace, yaml flow style, xml without trailing whitespace); yaml block style, toml, jsonl and csv are not self delimiting")
-	r.Assume("csv has no notion of trailing data; jsonl: a second value is one more line, not trailing data")
+	r.Assume("csv has no notion of trailing data; jsonl: a second value is one more line, not trailing data; toml: a document is one table, so only the 0x00 trailer applies")
 	r.Assume("byte string leaves hold printable ASCII so that the documented bytes-as-string representation is exact")
 
 	only := os.Getenv("VERIF_ONLY")
